@@ -259,6 +259,14 @@ def run_case(case):
     if not okc:
         values_mismatch('dense', 'dense input differs from PyWavelets: ' +
                         core.first_mismatch(y_impl, y_ref, tol2))
+    # the same call while autograd is recording must give the same numbers
+    xg = torch.tensor(x, dtype=tdt).requires_grad_(True)
+    ok, out3 = lib(mod, xg)
+    if not ok:
+        return r.fail(out3.bucket, 'forward raised when the input requires grad: %s' % out3)
+    y_rec = _flat(*out3)
+    if y_rec.shape != y_impl.shape or not core.close(y_rec, y_impl, (4 * core.EPS32 if f32 else 1e-13) * max(g * core.maxabs(x), 1e-300))[0]:
+        r.fail('depends_on_autograd_recording:dim%d' % dim, 'coefficients differ between a plain call and a call whose input requires grad')
     return r
 
 LEVEL_TEXT = ('Generated-input search: for each generated configuration the whole '
